@@ -215,6 +215,21 @@ func c11Check(c c11Case) (v vcase.Verdict) {
 		v.Failf("swapped U = %v, want %v", r2.U, float64(2*n1*n2-twoU)/2)
 		return
 	}
+	// A caller that refills one buffer with new values (a sliding window): the answer is
+	// about the values passed now.
+	{
+		buf := append([]float64(nil), c.X1...)
+		if _, err := MannWhitneyUTest(buf, c.X2, LocationDiffers); err == nil {
+			for i := range buf {
+				buf[i] = -buf[i] // mirrored: other ranks, same buffer, same length
+			}
+			wantTwoU := refstat.TwoU(buf, c.X2)
+			if r3, err := MannWhitneyUTest(buf, c.X2, LocationDiffers); err == nil && r3.U*2 != float64(wantTwoU) {
+				v.Failf("MannWhitneyUTest on a refilled buffer: U(%v, %v) = %v, pair counting gives %v (the buffer held %v before)", buf, c.X2, r3.U, float64(wantTwoU)/2, c.X1)
+				return
+			}
+		}
+	}
 	for i := range x1c {
 		if x1c[i] != c.X1[i] {
 			v.Failf("input sample modified")
